@@ -40,6 +40,8 @@ def emit_nodes(nodes, owner_name, elems_echo=True):
         elif k == "elem":
             o = ' data-o="{{ %s_id }}"' % owner_name if owner_name else ""
             out.append('<%s data-e="%s"%s>%s</%s>' % (n[1], n[2], o, emit_nodes(n[3], owner_name), n[1]))
+        elif k == "include":
+            out.append('{%% include "%s" %%}' % partial(emit_nodes(n[3], owner_name)))
         elif k == "comp":
             _, cname, kwargs, only, bk, body, dyn = n
             head = ('"dynamic" is="%s"' % cname) if dyn else '"%s"' % cname
@@ -82,6 +84,17 @@ def emit_nodes(nodes, owner_name, elems_echo=True):
         else:
             raise AssertionError(k)
     return "".join(out)
+
+
+def partial(src):
+    """Register `src` as a partial template in the engine's locmem loader (name derived from the content)."""
+    import hashlib
+
+    from django.template import engines
+
+    name = "inc_%s.html" % hashlib.blake2b(src.encode(), digest_size=6).hexdigest()
+    engines["django"].engine.template_loaders[0].templates_dict[name] = src
+    return name
 
 
 def fmt_injected(v):
